@@ -159,12 +159,13 @@ class CHECK(Check):
             'select c1 from c2 union select c3 from c4',
             'create table c1 (select c2 from c3)',
             'insert into c1 select c2 from c3',
-            # structurally equal siblings (the replaced one must be found by identity, not by equality)
-            'select c1, c2, c1 from c3', 'select null, c1, null from c2', 'select 1, 1, 1 from c1', 'select c1 from c2 where c3 = 1 and c3 = 1',
-            'insert into c1 (a, b) values (1, 1), (1, 1)', 'select f(c1, c1), g(2, 2) from c3', 'select c1 from c2 group by c3, c3 order by c4, c4',
-            'select c1 from c2 where c3 in (1, 1, 1)', 'select case when c1 = 1 then 2 when c1 = 1 then 2 else 2 end from c3', 'select c1 from c2 join c2 on c3 = c3',
-            'select c1 from c2 union select c1 from c2', 'select (select 1), (select 1) from c1', 'select c1 from c2 where c1 between 1 and 1',
-            "insert into c1 (a, b) values (?, 'x'), (3, 'y')", "insert into c1 (a, b) values (1, 2), (?, ?), (5, 6)", 'select ?, 1, ? from c1',
+            # structurally equal siblings (the replaced one must be found by identity, not by equality); names and constants carry no
+            # numbers here: the order oracle reads numbers off the lexemes
+            'select x, y, x from z', 'select null, x, null from z', "select 'k', 'k', 'k' from z", "select x from z where y = 'k' and y = 'k'",
+            "insert into z (a, b) values ('k', 'k'), ('k', 'k')", "select f(x, x), g('k', 'k') from z", 'select x from z group by y, y order by w, w',
+            "select x from z where y in ('k', 'k', 'k')", "select case when x = 'k' then 'v' when x = 'k' then 'v' else 'v' end from z", 'select x from z join z on y = y',
+            'select x from z union select x from z', "select (select 'k'), (select 'k') from z", "select x from z where x between 'k' and 'k'",
+            "insert into z (a, b) values (?, 'x'), ('k', 'y')", "insert into z (a, b) values ('k', 'l'), (?, ?), ('m', 'n')", 'select ?, x, ? from z',
         ]
         for d in gsx.DIALECTS:
             for t in extra:
